@@ -241,7 +241,7 @@ def gen_rows(rng, n, m):
         return [[0.0] * m for _ in range(n)]
     if style < 0.16:
         return [[gen_float(rng) or 1.0 for _ in range(m)] for _ in range(n)]
-    density = rng.choice([0.1, 0.3, 0.5, 0.8])
+    density = rng.choice([0.3, 0.5, 0.8]) if n * m <= 4 else rng.choice([0.1, 0.3, 0.5, 0.8])
     rows = [[(gen_float(rng) if rng.random() < density else 0.0) for _ in range(m)] for _ in range(n)]
     # all-zero rows at chosen places: first / middle / last / several in a row
     if n > 1:
@@ -469,7 +469,7 @@ def run(ctx):
             t = core.build(spec, route)
             run_case(ctx, t, "g", datetime.datetime(2020, 1, 2), tags=("route", route), label="route:" + route)
             ctx.count("route=" + route)
-    n = 750 if ctx.quick() else 12000
+    n = 1500 if ctx.quick() else 15000
     max_n = 6 if ctx.quick() else 9
     for k in range(n):
         spec = gen_spec(rng, max_n, max_n)
